@@ -37,6 +37,7 @@ fn chip_cfg(w: u32, h: u32) -> CtrlCfg {
         has_xywl_partial: false,
         busy_low: true,
         busy_held_after_pof: false,
+        pof_pulse_floor: 0,
         vendor_uc_sleep: false,
     }
 }
